@@ -164,7 +164,8 @@ fn build_stream(c: &StreamCase) -> (Vec<u8>, usize, Vec<usize>) {
         let k = k as usize % pkts.len();
         match kind % 3 {
             0 => pkts[k][5] ^= 0x40,
-            1 => pkts[k][0] |= 0x80,
+            // any of the three non-zero settings of the two most significant bits
+            1 => pkts[k][0] |= [0x80u8, 0x40, 0xC0][(pkts[k].len() / 4 + k) % 3],
             _ => {
                 // make packet k strictly larger than a buffer that still holds every other packet
                 let others = pkts
